@@ -185,7 +185,9 @@ PyAttr(s, v, a) ==
                          ELSE IF a = "cycle" THEN [found |-> TRUE, v |-> [t |-> "loopcycle", l |-> v]]
                          ELSE IF a = "changed" THEN [found |-> TRUE, v |-> [t |-> "loopchanged", l |-> v]]
                          ELSE [found |-> FALSE, v |-> VNone]
-      [] v.t = "dict" -> IF a \in {"items", "keys", "values", "get"} /\ ~DictGet(v, StrKey(a)).found
+      \* the attribute (a bound method) exists whatever keys the dict holds: d.items is the method even when
+      \* d has a key "items" (subscript syntax tries the key first, see GetItem)
+      [] v.t = "dict" -> IF a \in {"items", "keys", "values", "get"}
                          THEN [found |-> TRUE, v |-> [t |-> "dictm", d |-> v, m |-> a]]
                          ELSE [found |-> FALSE, v |-> VNone]
       [] v.t = "cycler" -> IF a = "current" THEN [found |-> TRUE, v |-> s.ns[v.id]["items"].v[s.ns[v.id]["pos"].n + 1]]
